@@ -22,6 +22,14 @@ type seed struct {
 }
 
 var seeds = []seed{
+	{"roaring64 reverse iterator reads its bucket key after stepping to the next bucket", "CUR1", "roaring64/iterables64.go", "\tx := uint64(ii.iter.Next()) | ii.hs\n\tif !ii.iter.HasNext() {\n\t\tii.pos = ii.pos - 1\n\t\tii.init()\n\t}\n\treturn x\n", "\tlow := ii.iter.Next()\n\tif !ii.iter.HasNext() {\n\t\tii.pos = ii.pos - 1\n\t\tii.init()\n\t}\n\treturn uint64(low) | ii.hs\n", "intReverseIterator).Next|hs with inner"},
+	{"NextMany64 hoists the chunk key out of the refill loop", "CUR1", "roaring.go", "\tn := 0\n\tfor n < len(buf) {\n\t\tif ii.iter == nil {\n\t\t\tbreak\n\t\t}\n\n\t\ths := uint64(ii.hs) | hs64\n", "\tn := 0\n\ths := uint64(ii.hs) | hs64\n\tfor n < len(buf) {\n\t\tif ii.iter == nil {\n\t\t\tbreak\n\t\t}\n\n", "NextMany64|hs with inner"},
+	{"roaring64 AdvanceIfNeeded leaves an exhausted bucket under the cursor", "CUR2", "roaring64/iterables64.go", "\t\tii.iter.AdvanceIfNeeded(lowbits(minval))\n\n\t\tif !ii.iter.HasNext() {\n\t\t\tii.pos++\n\t\t\tii.init()\n\t\t}\n", "\t\tii.iter.AdvanceIfNeeded(lowbits(minval))\n", "AdvanceIfNeeded|after inner AdvanceIfNeeded"},
+	{"intIterator.AdvanceIfNeeded advances inside whatever chunk the skip loop stopped on", "CUR3", "roaring.go", "\tif ii.HasNext() && ii.hs == to {\n\t\tii.iter.advanceIfNeeded(lowbits(minval))\n", "\tif ii.HasNext() {\n\t\tii.iter.advanceIfNeeded(lowbits(minval))\n", "intIterator).AdvanceIfNeeded|inner advanceIfNeeded of the low half"},
+	{"unsetIterator.PeekNext folds the gap leg into the chunk leg", "CUR4", "roaring.go", "\tif iui.iter == nil {\n\t\treturn (uint32(iui.nextKey) << 16) | uint32(iui.emptyContainerVal)\n\t}\n\treturn uint32(iui.iter.peekNext()&maxLowBit) | iui.hs\n", "\tlow := iui.emptyContainerVal\n\tif iui.iter != nil {\n\t\tlow = iui.iter.peekNext()\n\t}\n\treturn uint32(low) | iui.hs\n", "unsetIterator).PeekNext|read of hs"},
+	{"Bitmap.And tests the old receiver for emptiness", "RCV1", "roaring.go", "\t\t\t\t\tdiff := c1.iand(c2)\n\t\t\t\t\tif !diff.isEmpty() {\n", "\t\t\t\t\tdiff := c1.iand(c2)\n\t\t\t\t\tif !c1.isEmpty() {\n", "Bitmap).And|receiver of iand"},
+	{"the galloping intersection test indexes with an unchecked search result", "GAL1", "setutil.go", "\t\t\tk1 = advanceUntil(largeset, k1, len(largeset), s2)\n\t\t\tif k1 == len(largeset) {\n\t\t\t\tbreak mainwhile\n\t\t\t}\n\t\t\ts1 = largeset[k1]\n", "\t\t\tk1 = advanceUntil(largeset, k1, len(largeset), s2)\n\t\t\ts1 = largeset[k1]\n", "result of advanceUntil"},
+	{"andArrayCardinality gallops without reloading the cached element", "CACHE1", "runcontainer.go", "\t\tfor v < p.start {\n\t\t\tpos++\n\t\t\tif pos == maxpos {\n\t\t\t\tbreak mainloop\n\t\t\t}\n\t\t\tv = ac.content[pos]\n\t\t}\n", "\t\tif v < p.start {\n\t\t\tpos = advanceUntil(ac.content, pos, maxpos, p.start)\n\t\t\tif pos == maxpos {\n\t\t\t\tbreak mainloop\n\t\t\t}\n\t\t}\n", "andArrayCardinality|v beside cursor pos"},
 	{"removeIndexRange shifts the flags by another distance than keys and containers", "R3", "roaringarray.go", "\tcopy(ra.needCopyOnWrite[begin:], ra.needCopyOnWrite[end:])\n", "\tcopy(ra.needCopyOnWrite[begin:], ra.needCopyOnWrite[end-begin:])\n", "removeIndexRange|P0 shifted"},
 	{"removeAtIndex forgets to shift the flags", "R3", "roaringarray.go", "\tcopy(ra.needCopyOnWrite[i:], ra.needCopyOnWrite[i+1:])\n\n\tra.resize(len(ra.keys) - 1)\n", "\tra.resize(len(ra.keys) - 1)\n", "removeAtIndex|P0 shifted"},
 	{"DenseSize adds one before widening the maximum", "U1", "roaring.go", "\tmaximum := 1 + uint64(rb.Maximum())\n", "\tmaximum := uint64(rb.Maximum() + 1)\n", "w32:(*roaring.Bitmap).DenseSize"},
